@@ -105,6 +105,16 @@ def c19_semantics(case, rng, kp):
     if len(names) != Xt.shape[1]:
         return False, dict(what='number of names differs from the number of lifted columns',
                            n_names=len(names), n_columns=int(Xt.shape[1]))
+    for fmt in (None, 'latex'):
+        for call in (None, True, False):
+            c = ep if call is None else call
+            want = Xt.shape[1] - (1 if ep else 0) + (1 if c else 0)
+            for sym in (False, True):
+                got = kp.get_feature_names_out(format=fmt, episode_feature=call, symbols_only=sym)
+                if len(got) != want:
+                    return False, dict(what='get_feature_names_out does not return one name per lifted column',
+                                       format=fmt, episode_feature=call, symbols_only=sym,
+                                       n_names=len(got), n_columns=int(want), names=[str(x) for x in got])
     if ep and names[0] != 'ep':
         return False, dict(what='episode column is not named ep', names=names[:3])
     cols = {f'x{k}': k for k in range(ns)}
